@@ -64,7 +64,12 @@ manifest = {
              "variants).  Exit 0 = every obligation discharged (or only listed known findings), exit 1 = VIOLATION "
              "line(s) with a replay file naming file:line, rule and construct, exit 2 = ANALYSIS-ERROR (anchor "
              "vanished, unparsable file, floor of matched sites not met).  Repaired defects are recorded as "
-             "'fixed' in known_findings.json and suppress nothing.",
+             "'fixed' in known_findings.json and suppress nothing.  Verdicts are three-valued per obligation: discharged, "
+             "refuted (VIOLATION) and NOT-DECIDED (printed, exit 0): a construct written in a spelling the rule does not "
+             "model is reported as not decided on that tree, never as a violation (DESIGN.md 10.10).  Before any rule runs the "
+             "loader brings the source into a canonical form (helpers absent from the reference tree spliced into their "
+             "callers, renamed functions given their reference name back, guard clauses nested, single-use temporaries "
+             "substituted, numpy/dict/tuple idioms in one spelling); the passes are exact rewrites listed in DESIGN.md 10.11.",
 }
 if not na:
     del manifest["not_applicable"]
